@@ -78,10 +78,13 @@ func (w *histWorldT) grow() error {
 	if err != nil {
 		return fmt.Errorf("reference node has no state root for %d: %w", h, err)
 	}
-	for id := int32(1); id <= chainkit.MaxContractID; id++ {
+	for id := int32(1); id <= maxID; id++ {
 		if hh, err := bc.GetContractScriptHash(id); err == nil {
 			w.hashOf[id] = hh
 		}
+	}
+	if _, err := bc.GetContractScriptHash(maxID + 1); err == nil {
+		return fmt.Errorf("more than %d contracts deployed: the storage dump would be incomplete", maxID)
 	}
 	rh := refHeight{flat: flat(bc), root: sr.Root, bhash: b.Hash(), calls: w.calls()}
 	w.hs = append(w.hs, rh)
